@@ -383,3 +383,13 @@ func RequestsFor(ops []string) (reqs []Request, snis []string) {
 	}
 	return reqs, snis
 }
+
+// ChurnOp is an endpoint / secret change of an existing object (what dynamic updates are made of).
+func (g *Gen) ChurnOp() string {
+	r := g.R
+	ns := gen.Pick(r, g.C.Namespaces)
+	if r.Chance(1, 4) {
+		return g.secOp(ns, gen.Pick(r, g.C.Secrets))
+	}
+	return g.epOp(ns, gen.Pick(r, g.C.Services))
+}
